@@ -50,8 +50,8 @@ fn g_suspend(r: &mut Rng) -> Program {
     gen_general(r, &SUSPEND)
 }
 
-const Q: u64 = 400_000;
-const T: u64 = 12_000_000;
+const Q: u64 = 4_000_000;
+const T: u64 = 120_000_000;
 
 pub fn for_property(prop: &str) -> Vec<Family> {
     let f = |name, what, gen: fn(&mut Rng) -> Program, q, t| Family { name, what, gen, quick_runs: q, thorough_runs: t, sweep_width: 0 };
@@ -64,13 +64,31 @@ pub fn for_property(prop: &str) -> Vec<Family> {
         ],
         "C03" => vec![
             f("background", "only non-blocking scheduling calls; callers leave at once; the queue must run without a kick", g_bg, Q / 2, T / 2),
-            f("mix-kick", "sync/try_sync callers and wakers racing with pool threads going dormant", g_kick, Q / 2, T / 2),
+            f("mix-kick", "sync/try_sync callers and wakers racing with pool threads going dormant", g_kick, Q / 4, T / 4),
+            f("mix", "all operation kinds, all pools", g_mix, Q / 4, T / 4),
         ],
-        "C04" => vec![f("sync-states", "sync against every queue state, nested sync, saturated and empty pools", g_sync, Q, T)],
-        "C06" => vec![f("wake", "future operations suspended on gates under each runner context, wake-ups at every relative timing", g_wake, Q, T)],
-        "C07" => vec![f("handles", "future_desync/after handles awaited, polled out of order, .sync()-ed, detached, dropped", g_handles, Q, T)],
-        "C08" => vec![f("fsync", "future_sync handles polled, dropped at any point, awaited, nested across objects", g_fsync, Q, T)],
-        "C09" => vec![f("try", "try_sync racing every other operation kind and their completion paths", g_try, Q, T)],
+        "C04" => vec![
+            f("sync-states", "sync against every queue state, nested sync, saturated and empty pools", g_sync, Q / 2, T / 2),
+            f("drain-steal", "pool 0/1 so that sync callers drain and waiters steal", g_drain, Q / 4, T / 4),
+            f("mix", "all operation kinds, all pools", g_mix, Q / 4, T / 4),
+        ],
+        "C06" => vec![
+            f("wake", "future operations suspended on gates under each runner context, wake-ups at every relative timing", g_wake, Q * 3 / 4, T * 3 / 4),
+            f("late-poll", "futures created early and polled late or never while other threads schedule", g_late, Q / 4, T / 4),
+        ],
+        "C07" => vec![
+            f("handles", "future_desync/after handles awaited, polled out of order, .sync()-ed, detached, dropped", g_handles, Q / 2, T / 2),
+            f("late-poll", "futures created early and polled late or never while other threads schedule", g_late, Q / 4, T / 4),
+            f("mix", "all operation kinds, all pools", g_mix, Q / 4, T / 4),
+        ],
+        "C08" => vec![
+            f("fsync", "future_sync handles polled, dropped at any point, awaited, nested across objects", g_fsync, Q * 3 / 4, T * 3 / 4),
+            f("mix", "all operation kinds, all pools", g_mix, Q / 4, T / 4),
+        ],
+        "C09" => vec![
+            f("try", "try_sync racing every other operation kind and their completion paths", g_try, Q * 3 / 4, T * 3 / 4),
+            f("mix-kick", "sync/try_sync callers and wakers racing with pool threads going dormant", g_kick, Q / 4, T / 4),
+        ],
         "C13" => vec![f("suspend", "suspend, later scheduling calls, resume or drop of the resumer from any thread", g_suspend, Q, T)],
         _ => vec![],
     }
